@@ -160,6 +160,8 @@ LayerIdx(l) == CHOOSE k \in DOMAIN ctx : ctx[k].layer = l /\ \A j \in DOMAIN ctx
 \* ---------------------------------------------------------------- hooks that exclude their element at run time
 \* (P.skips: before_feature / before_rule / before_scenario hooks of these elements call element.skip())
 SkipsAt(name, el) == \E k \in DOMAIN P.skips : P.skips[k].name = name /\ P.skips[k].el = el
+\* ... or, from an after_scenario hook, an enclosing feature / rule ("skip the rest"): the element skip() is called on
+SkipTarget(name, el) == P.skips[CHOOSE k \in DOMAIN P.skips : P.skips[k].name = name /\ P.skips[k].el = el].target
 RECURSIVE IsUnder(_,_)
 IsUnder(x, el) == x = el \/ (prog[x].parent # 0 /\ IsUnder(prog[x].parent, el))
 \* skip(): should_skip on the element and everything below it, not yet executed steps become skipped
@@ -167,6 +169,10 @@ SkipFlags(el) == [x \in DOMAIN shouldSkip |-> shouldSkip[x] \/ IsUnder(x, el)]
 SkipSteps(el) == [x \in DOMAIN stepst |-> IF IsUnder(x, el)
                                           THEN [j \in DOMAIN stepst[x] |-> IF stepst[x][j] \in {"untested", "skipped"} THEN "skipped" ELSE stepst[x][j]]
                                           ELSE stepst[x]]
+\* skip() drops the cached status of everything below the element (clear_status) and pins a scenario that has no steps at
+\* all to skipped
+SkipForced(el) == [x \in DOMAIN forced |-> IF ~IsUnder(x, el) THEN forced[x]
+                                            ELSE IF prog[x].kind = "scenario" /\ Len(prog[x].steps) = 0 THEN "skipped" ELSE "none"]
 
 \* hooks that register a cleanup (P.hookcl: before_all, after_all, before_feature, before_rule, before_scenario and
 \* after_scenario each call context.add_cleanup with a function of their own): it lands in the innermost scope, the
@@ -251,11 +257,12 @@ CBeforeHook ==
       /\ LET skip == SkipsAt(IF KindName(el) = "feature" THEN "before_feature" ELSE "before_rule", el) IN
          /\ shouldSkip' = IF skip THEN SkipFlags(el) ELSE shouldSkip
          /\ stepst' = IF skip THEN SkipSteps(el) ELSE stepst
+         /\ forced' = IF skip THEN SkipForced(el) ELSE forced
       /\ LET hf == hookFailed'[el] IN
          stack' = SetTop([Top EXCEPT !.fc = IF hf THEN Top.fc + 1 ELSE Top.fc,
                                       !.su = hf \/ rt.aborted, !.sr = ~shouldSkip'[el], !.pc = "announce"])
    /\ ctx' = HookCl(ctx)
-   /\ U(<<inputs, ret, forced, cap>>)
+   /\ U(<<inputs, ret, cap>>)
 
 CAnnounce ==
    /\ Top.fn = "container" /\ Top.pc = "announce"
@@ -372,11 +379,12 @@ SBeforeHook ==
       /\ LET skip == SkipsAt("before_scenario", el) IN
          /\ shouldSkip' = IF skip THEN SkipFlags(el) ELSE shouldSkip
          /\ stepst' = IF skip THEN SkipSteps(el) ELSE stepst
+         /\ forced' = IF skip THEN SkipForced(el) ELSE forced
       /\ LET hf == hookFailed'[el] IN
          stack' = SetTop([Top EXCEPT !.failed = hf, !.su = hf \/ rt.aborted, !.sr = ~shouldSkip'[el],
                                       !.rs = ~shouldSkip'[el] /\ ~cfg.dry, !.pc = "announce"])
    /\ ctx' = HookCl(ctx)
-   /\ U(<<inputs, ret, forced, cap>>)
+   /\ U(<<inputs, ret, cap>>)
 SAnnounce ==    \* formatter.scenario, setup_capture (fresh buffers), formatter.step*
    /\ Top.fn = "scenario" /\ Top.pc = "announce"
    /\ LET el == Top.el
@@ -426,8 +434,15 @@ SAfterHook ==
       /\ evlog' = Append(evlog, HookEv("after_scenario", el, "", Raises, 0, FALSE))
       /\ hookFailed' = IF Raises THEN [hookFailed EXCEPT ![el] = TRUE] ELSE hookFailed
       /\ stack' = SetTop([Top EXCEPT !.pc = "atag", !.i = 1])
+      \* the hook may call feature.skip() / rule.skip() on an enclosing element: everything below it is flagged, steps
+      \* that were not executed become skipped, cached statuses below it are dropped (clear_status)
+      /\ IF SkipsAt("after_scenario", el)
+         THEN LET t == SkipTarget("after_scenario", el) IN
+              /\ shouldSkip' = SkipFlags(t) /\ stepst' = SkipSteps(t)
+              /\ forced' = SkipForced(t)
+         ELSE U(<<stepst, forced, shouldSkip>>)
    /\ ctx' = HookCl(ctx)
-   /\ U(<<inputs, ret, stepst, forced, shouldSkip, cap>>)
+   /\ U(<<inputs, ret, cap>>)
 SAfterTag ==
    /\ Top.fn = "scenario" /\ Top.pc = "atag"
    /\ LET el == Top.el IN
@@ -471,7 +486,7 @@ LogPass(lv, nm) == /\ lv >= cfg.loglvl
                       ELSE cfg.loginc = <<>> \/ \E i \in DOMAIN cfg.loginc : cfg.loginc[i] = nm
 \* the user's own root handler sees a record iff it is attached (with --logging-clear-handlers it is detached while a
 \* scenario captures logging) and the record reaches the root level (the capture handler's level while capturing, else WARNING)
-RootLvl == IF cfg.cap_log THEN cfg.loglvl ELSE 30
+RootLvl == IF cfg.cap_log THEN cfg.loglvl ELSE IF cfg.rootlvl0 THEN 0 ELSE 30      \* (rootlvl0: before_all sets the root level to NOTSET)
 UserAttached == ~(cfg.cap_log /\ cfg.logclear)
 WrLog(c, m, lv, nm) == LET c1 == IF cfg.cap_log /\ LogPass(lv, nm) THEN [c EXCEPT !.buf = Append(@, m)] ELSE c
                        IN IF UserAttached /\ lv >= RootLvl THEN [c1 EXCEPT !.ulog = Append(@, m)] ELSE c1
